@@ -200,8 +200,10 @@ async fn read_headers(
 async fn read_line(s: Reader<'_>) -> Result<String, Error> {
     let mut buf = String::with_capacity(256);
     let sz = s.read_line(&mut buf).await.context("readline")?;
+    // a line that the end of the stream cut short (no line feed) is not a line
     match sz {
         0 => Err(err_msg("EOF")),
+        _ if !buf.ends_with('\n') => Err(err_msg("EOF")),
         _ => Ok(buf),
     }
 }
